@@ -14,7 +14,7 @@ func init() { register("C08", "CPU allocator contract", checkC08) }
 
 func checkC08(e *Engine, r *Report) {
 	r.Rules = []string{
-		"R5 paired update: every `result-chain.Union(X)` in pkg/cpuallocator has, in the same basic block, `from-chain.Difference(X)` with the same X (and vice versa), and the count is reduced by `X.Size()` in that block — or the block is one of the two reviewed exact-size sites whose guard is checked; the helper's result/from/cnt fields are written only by the take* stages (as a triple when copied back from locals), by allocateCpus' set-up and on freshly created nested helpers",
+		"R5 paired update: every `result-chain.Union(X)` in pkg/cpuallocator has, in the same basic block, `from-chain.Difference(X)` with the same X (and vice versa), and the count is reduced by `X.Size()` in that block — or the block is one of the two reviewed exact-size sites whose guard is checked; the count never goes negative: each reduction by X.Size() is covered by a dominating test cnt >= |X| on the same count and set, is the answer of a nested helper asked for exactly cnt, takes a single CPU under the loop invariant cnt >= 1, or an overshoot is provably discarded before any commit (a negative count could never reach the cnt == 0 gate again); the helper's result/from/cnt fields are written only by the take* stages (as a triple when copied back from locals), by allocateCpus' set-up and on freshly created nested helpers",
 		"R2 count gate: allocate() returns the accumulated result only when the remaining count is 0 and an empty set otherwise",
 		"R3 write-back discipline: the caller's set is written only in allocateCpus — not at all when it is too small (error, empty result), emptied when exactly the whole set is taken (result = a clone of it), replaced by the helper's remainder otherwise; ReleaseCpus allocates |set|-n and leaves n",
 		"R12 pick/take agreement: a stage that first picks idle units with a predicate `S(unit) ∩ remaining == S(unit)` and then takes T(unit) per picked unit takes T ⊆ S — the same symbolic set of the unit (Venn algebra over canonicalised expressions of the filter closure and the loop body)",
@@ -164,6 +164,7 @@ func checkC08(e *Engine, r *Report) {
 		}
 	}
 	r.MinInstances("result/from update pairs", nPairs, 6)
+	checkCountNonNegative(e, r, fns, fCnt, chainRoots, allocate, isSetOp)
 
 	// field writers
 	takeFns := map[string]bool{}
@@ -884,4 +885,371 @@ func strictKeySelection(head *ssa.BasicBlock, phi *ssa.Phi, newVal ssa.Value, pr
 		}
 	}
 	return false
+}
+
+// checkCountNonNegative: rule 1d. The remaining count is only ever reduced by the size of a set that is known not to
+// exceed it: a request whose count went negative can never reach the `cnt == 0` gate of allocate() again (no stage
+// increases the count), so it would come back empty-handed with the caller's set already reduced.
+//
+// For every `cnt' = cnt - X.Size()` on the count chain one of the following is established:
+//
+//	G1  a dominating test gives cnt >= X.Size()  (cnt >= |X|, |X| <= cnt, cnt == |X| on the true side; cnt < |X|, |X| > cnt on the false side),
+//	    on the same count value (same SSA value, or the same field reloaded with no write between) and the same X;
+//	G2  X is what a nested helper's allocate() returned for a request of exactly cnt (|X| is 0 or cnt by the count gate R2);
+//	G3  X is a single CPU, every caller enters the stage under `cnt > 0`, the field is written nowhere else in the stage and
+//	    the stage loops back only after testing the new count against 0 (so cnt >= 1 is a loop invariant);
+//	G4  a negative cnt' is never committed: with every test of the derived value evaluated as for a negative number, no
+//	    path from the subtraction reaches a store into the helper's cnt, a nested request or a further subtraction.
+func checkCountNonNegative(e *Engine, r *Report, fns []*ssa.Function, fCnt *types.Var, chainRoots func(ssa.Value) map[*types.Var]bool, allocate *ssa.Function, isSetOp func(ssa.Value, string) (*ssa.Call, bool)) {
+	rule := "R5 paired update"
+	sizeOf := func(v ssa.Value) ssa.Value { // X of X.Size()
+		if c, ok := v.(*ssa.Call); ok && callObj(c.Common()) != nil && callObj(c.Common()).Name() == "Size" && len(callArgs(c)) == 1 && isCPUSetType(callArgs(c)[0].Type()) {
+			return callArgs(c)[0]
+		}
+		return nil
+	}
+	// functions that may (transitively) store into the helper's count
+	mayWrite := map[*ssa.Function]int{} // 1: in progress/no, 2: yes
+	var fnWrites func(g *ssa.Function) bool
+	fnWrites = func(g *ssa.Function) bool {
+		if v, ok := mayWrite[g]; ok {
+			return v == 2
+		}
+		mayWrite[g] = 1
+		if g.Pkg == nil || g.Pkg.Pkg.Path() != pkgCPUA {
+			return false
+		}
+		w := false
+		for _, h := range WithAnon(g) {
+			AllInstrs(h, func(in ssa.Instruction) {
+				switch x := in.(type) {
+				case *ssa.Store:
+					if fieldOfAddr(x.Addr) == fCnt {
+						w = true
+					}
+				case ssa.CallInstruction:
+					for _, c := range e.Callees(x) {
+						if !w && fnWrites(c) {
+							w = true
+						}
+					}
+				}
+			})
+		}
+		if w {
+			mayWrite[g] = 2
+		}
+		return w
+	}
+	writesCnt := func(in ssa.Instruction) bool {
+		switch x := in.(type) {
+		case *ssa.Store:
+			return fieldOfAddr(x.Addr) == fCnt
+		case ssa.CallInstruction:
+			for _, g := range e.Callees(x) {
+				if fnWrites(g) {
+					return true
+				}
+			}
+		}
+		return false
+	}
+	// sameCount: a and b denote the same count at their respective points
+	sameCount := func(a, b ssa.Value) bool {
+		if a == b {
+			return true
+		}
+		fa, ba := loadedField(a)
+		fb, bb := loadedField(b)
+		if fa == nil || fa != fb || fa != fCnt || !(ba == bb || (paramIndex(ba) >= 0 && paramIndex(ba) == paramIndex(bb))) {
+			return false
+		}
+		la, lb := a.(*ssa.UnOp), b.(*ssa.UnOp)
+		if la == nil || lb == nil {
+			return false
+		}
+		// no write of the field between the two loads (la first)
+		if !la.Block().Dominates(lb.Block()) {
+			la, lb = lb, la
+			if !la.Block().Dominates(lb.Block()) {
+				return false
+			}
+		}
+		between := func(b *ssa.BasicBlock) bool { // b lies on a path la.Block -> lb.Block
+			return b != la.Block() && b != lb.Block() && la.Block().Dominates(b) && blockReaches(b, lb.Block())
+		}
+		clean := true
+		for _, b := range la.Block().Parent().Blocks {
+			for i, in := range b.Instrs {
+				_ = i
+				switch {
+				case b == la.Block() && b == lb.Block():
+					if instrIndex(in) > instrIndex(la) && instrIndex(in) < instrIndex(lb) && writesCnt(in) {
+						clean = false
+					}
+				case b == la.Block():
+					if instrIndex(in) > instrIndex(la) && writesCnt(in) {
+						clean = false
+					}
+				case b == lb.Block():
+					if instrIndex(in) < instrIndex(lb) && writesCnt(in) {
+						clean = false
+					}
+				case between(b):
+					if writesCnt(in) {
+						clean = false
+					}
+				}
+			}
+		}
+		return clean
+	}
+	n := 0
+	for _, fn := range fns {
+		if fn == allocate {
+			continue
+		}
+		var subs []*ssa.BinOp
+		AllInstrs(fn, func(in ssa.Instruction) {
+			if bo, ok := in.(*ssa.BinOp); ok && bo.Op == token.SUB && chainRoots(bo.X)[fCnt] && sizeOf(bo.Y) != nil {
+				subs = append(subs, bo)
+			}
+		})
+		for _, bo := range subs {
+			n++
+			x := sizeOf(bo.Y)
+			how := ""
+			// G1
+			for _, cf := range dominatingConds(bo.Block()) {
+				c, ok := cf.Cond.(*ssa.BinOp)
+				if !ok {
+					continue
+				}
+				var cnt, sz ssa.Value
+				op := c.Op
+				switch {
+				case sizeOf(c.Y) == x && x != nil:
+					cnt, sz = c.X, c.Y
+				case sizeOf(c.X) == x:
+					cnt, sz = c.Y, c.X
+					op = flipCmp(op)
+				}
+				if sz == nil || !sameCount(cnt, bo.X) {
+					continue
+				}
+				// now: cnt op |X|
+				if cf.Val && (op == token.GEQ || op == token.EQL) || !cf.Val && op == token.LSS {
+					how = "G1: dominated by " + c.String() + fmt.Sprintf("=%v", cf.Val)
+				}
+			}
+			// G2
+			if how == "" {
+				if call, ok := x.(*ssa.Call); ok && len(e.Callees(call)) == 1 && e.Callees(call)[0] == allocate {
+					recv := callArgs(call)[0]
+					okReq, nSt := true, 0
+					AllInstrs(fn, func(in ssa.Instruction) {
+						if st, ok := in.(*ssa.Store); ok && fieldOfAddr(st.Addr) == fCnt {
+							if fa, ok := st.Addr.(*ssa.FieldAddr); ok && fa.X == recv {
+								nSt++
+								if st.Val != bo.X || !st.Block().Dominates(call.Block()) {
+									okReq = false
+								}
+							}
+						}
+					})
+					if okReq && nSt == 1 {
+						how = "G2: X is the nested helper's answer to a request for exactly this count"
+					}
+				}
+			}
+			// G3
+			if how == "" {
+				if nw, ok := x.(*ssa.Call); ok && isCpusetNew(nw) && variadicSingle(nw.Common().Args[0]) != nw.Common().Args[0] {
+					ok3 := true
+					why := ""
+					top := TopParent(fn)
+					cs := e.Callers(top)
+					if len(cs) == 0 || fn != top {
+						ok3, why = false, "no callers / closure"
+					}
+					for _, c := range cs {
+						guarded := false
+						for _, cf := range dominatingConds(c.Call.Block()) {
+							if b, ok := cf.Cond.(*ssa.BinOp); ok && cf.Val && b.Op == token.GTR && isConstInt(b.Y, 0) {
+								if f, base := loadedField(b.X); f == fCnt && len(callArgs(c.Call)) > 0 && (base == callArgs(c.Call)[0] || (paramIndex(base) >= 0 && paramIndex(base) == paramIndex(callArgs(c.Call)[0]))) && sameCountAtCall(b.X, c.Call, writesCnt) {
+									guarded = true
+								}
+							}
+						}
+						if !guarded {
+							ok3, why = false, "a caller does not test cnt > 0: "+e.InstrPos(c.Call)
+						}
+					}
+					// the only write of the count in the stage is the store of this difference
+					var store *ssa.Store
+					AllInstrs(fn, func(in ssa.Instruction) {
+						if writesCnt(in) {
+							if st, ok := in.(*ssa.Store); ok && st.Val == ssa.Value(bo) && store == nil {
+								store = st
+							} else {
+								ok3, why = false, "another write of the count in the stage: "+e.InstrPos(in)
+							}
+						}
+					})
+					if f, _ := loadedField(bo.X); f != fCnt {
+						ok3, why = false, "the reduced value is not the helper's count itself"
+					}
+					if ok3 && store != nil {
+						// assuming the new count is 0, the subtraction cannot be reached again
+						zero := func(cond ssa.Value) (bool, bool) {
+							b, ok := cond.(*ssa.BinOp)
+							if !ok || !isConstInt(b.Y, 0) {
+								return false, false
+							}
+							if f, _ := loadedField(b.X); f != fCnt && b.X != ssa.Value(bo) {
+								return false, false
+							}
+							switch b.Op {
+							case token.EQL, token.LEQ, token.GEQ:
+								return true, true
+							case token.NEQ, token.GTR, token.LSS:
+								return true, false
+							}
+							return false, false
+						}
+						if p := FindPath(PathQuery{Fn: fn, From: store, Assume: zero, Target: func(in ssa.Instruction) bool { return in == ssa.Instruction(bo) }}); p != nil {
+							ok3, why = false, "the stage takes another CPU without testing the count for 0: "+e.pathString(p)
+						}
+					} else if ok3 {
+						ok3, why = false, "difference not stored"
+					}
+					if ok3 {
+						how = "G3: single CPU, cnt >= 1 is an invariant of the stage's loop"
+					} else {
+						how = ""
+						_ = why
+					}
+				}
+			}
+			// G4
+			if how == "" {
+				derived := func(v ssa.Value) bool {
+					der := false
+					seen := map[ssa.Value]bool{}
+					var walk func(v ssa.Value, d int)
+					walk = func(v ssa.Value, d int) {
+						if v == nil || seen[v] || d > 30 || der {
+							return
+						}
+						seen[v] = true
+						if v == ssa.Value(bo) {
+							der = true
+							return
+						}
+						switch y := v.(type) {
+						case *ssa.Phi:
+							for _, ed := range y.Edges {
+								walk(ed, d+1)
+							}
+						case *ssa.BinOp:
+							if y.Op == token.SUB {
+								walk(y.X, d+1)
+							}
+						case *ssa.UnOp:
+							if al, ok := y.X.(*ssa.Alloc); ok && y.Op == token.MUL {
+								for _, st := range reachingStores(al, y) {
+									walk(st.Val, d+1)
+								}
+							}
+						}
+					}
+					walk(v, 0)
+					return der
+				}
+				negative := func(cond ssa.Value) (bool, bool) {
+					b, ok := cond.(*ssa.BinOp)
+					if !ok || !isConstInt(b.Y, 0) || !derived(b.X) {
+						return false, false
+					}
+					switch b.Op {
+					case token.LSS, token.LEQ, token.NEQ:
+						return true, true
+					case token.GTR, token.GEQ, token.EQL:
+						return true, false
+					}
+					return false, false
+				}
+				sink := func(in ssa.Instruction) bool {
+					switch y := in.(type) {
+					case *ssa.Store:
+						if fieldOfAddr(y.Addr) == fCnt && derived(y.Val) {
+							return true
+						}
+					case *ssa.BinOp:
+						if y != bo && y.Op == token.SUB && derived(y.X) {
+							return true
+						}
+					}
+					return false
+				}
+				// the subtraction itself stored into the field in the same step is a commit
+				p := FindPath(PathQuery{Fn: fn, From: bo, Assume: negative, Target: sink})
+				if p == nil {
+					how = "G4: a negative count is discarded (no path commits it)"
+				} else {
+					r.Check("R5:count-stays-nonnegative@"+FnName(TopParent(fn)), rule, "the remaining count is only reduced by the size of a set known not to exceed it (guarding test, nested exact request, single CPU under cnt >= 1), or an overshoot is discarded before it is committed", e.InstrPos(bo), fn, false,
+						"no guard establishes cnt >= |X| and a negative count can be committed: "+e.pathString(p), true)
+					continue
+				}
+			}
+			r.Check("R5:count-stays-nonnegative@"+FnName(TopParent(fn)), rule, "the remaining count is only reduced by the size of a set known not to exceed it (guarding test, nested exact request, single CPU under cnt >= 1), or an overshoot is discarded before it is committed", e.InstrPos(bo), fn, true, how, true)
+		}
+	}
+	r.MinInstances("count reductions", n, 5)
+}
+
+func flipCmp(op token.Token) token.Token {
+	switch op {
+	case token.LSS:
+		return token.GTR
+	case token.GTR:
+		return token.LSS
+	case token.LEQ:
+		return token.GEQ
+	case token.GEQ:
+		return token.LEQ
+	}
+	return op
+}
+
+// sameCountAtCall: the tested load of the count is still current at the call (no write between, same block chain).
+func sameCountAtCall(load ssa.Value, call ssa.CallInstruction, writes func(ssa.Instruction) bool) bool {
+	l, ok := load.(*ssa.UnOp)
+	if !ok || !l.Block().Dominates(call.Block()) {
+		return false
+	}
+	for _, b := range l.Block().Parent().Blocks {
+		onPath := b == l.Block() || b == call.Block() || (l.Block().Dominates(b) && blockReaches(b, call.Block()))
+		if !onPath {
+			continue
+		}
+		for _, in := range b.Instrs {
+			if in == ssa.Instruction(call) {
+				continue
+			}
+			if b == l.Block() && instrIndex(in) <= instrIndex(l) {
+				continue
+			}
+			if b == call.Block() && instrIndex(in) >= instrIndex(call.(ssa.Instruction)) {
+				continue
+			}
+			if b != l.Block() && b != call.Block() && !(l.Block().Dominates(b) && blockReaches(b, call.Block())) {
+				continue
+			}
+			if writes(in) {
+				return false
+			}
+		}
+	}
+	return true
 }
